@@ -136,7 +136,7 @@ def cases(tier, seed):
     # ---- partial randomisation with a mask
     for s, ms in ([('2K2', 0), ('2K2', 1), ('2K2', 2), ('P4', 0), ('P4', 1)] if q else [(s, ms) for s in ('2K2', 'P4', 'C4', 'paw') for ms in (0, 1, 2)]):
         S = und_from_edges(4, U4[s])
-        add(fn='randomize_graph_partial_und', kind='partial', n=4, sup=s, support=S, iters=ms, draws=3 * ms + 2, weight=5 * 4 ** ms,
+        add(fn='randomize_graph_partial_und', kind='partial', n=4, sup=s, support=S, iters=ms, draws=3 * ms + (2 if len(U4[s]) <= 3 else 5), weight=5 * 4 ** ms,
             shard_depth=8 if ms >= 2 else None)
     # ---- randomizer_bin_und: every labelled graph on 4 nodes, and a seeded sample of 5-node graphs
     for S in all_supports_und(4):
